@@ -105,6 +105,9 @@ type c15State struct {
 	// "sync-diff" operations (i.e. less often than every call)
 	synced  ygot.GoStruct
 	replica ygot.GoStruct
+	// a second replica that is brought up to date by unmarshalling the tree's RFC 7951
+	// JSON into it again and again (never into a fresh struct)
+	jreplica ygot.GoStruct
 }
 
 func (s *c15State) om() reflect.Value { return s.parent.Elem().Field(s.t.Field) }
@@ -256,7 +259,7 @@ func without(order []int, i int) []int {
 	return out
 }
 
-var c15OpsLegal = []string{"appendnew", "appendnew", "append", "append", "delete", "delete", "get", "keys", "values", "len", "getorcreate", "rt-json", "rt-gnmi", "rt-copy", "sync-diff", "sync-diff", "move-to-end", "move-to-end"}
+var c15OpsLegal = []string{"appendnew", "appendnew", "append", "append", "delete", "delete", "get", "keys", "values", "len", "getorcreate", "rt-json", "rt-gnmi", "rt-copy", "sync-diff", "sync-diff", "move-to-end", "move-to-end", "sync-json"}
 var c15OpsFault = []string{"appendnew", "append", "append-nilkey", "append-nilelem", "delete", "nilrecv", "appendnew", "append"}
 
 func c15Exec(c *Case, generate bool) (*Violation, *execStats) {
@@ -274,6 +277,7 @@ func c15Exec(c *Case, generate bool) (*Violation, *execStats) {
 	}
 	s.synced = model.Clone(s.root.Interface()).(ygot.GoStruct)
 	s.replica = model.Clone(s.root.Interface()).(ygot.GoStruct)
+	s.jreplica = model.Clone(s.root.Interface()).(ygot.GoStruct)
 	st.logf("target %s pool %v", t, poolStrs(s.pool))
 	nops := c.NOps
 	if !generate {
@@ -608,6 +612,8 @@ func c15Apply(s *c15State, op Op) *Violation {
 			return nil
 		}
 		return c15SyncDiff(s)
+	case "sync-json":
+		return c15SyncJSON(s)
 	case "rt-json", "rt-gnmi", "rt-copy":
 		if op.K == "rt-gnmi" && t.nestedInOrdered() {
 			// ygot documents nested ordered lists as unsupported by TogNMINotifications
@@ -740,5 +746,57 @@ func c15SyncDiff(s *c15State) *Violation {
 	}
 	s.synced = model.Clone(cur).(ygot.GoStruct)
 	s.st.Probes["replica_synced_by_diff"]++
+	return nil
+}
+
+// c15SyncJSON unmarshals the tree's JSON into a replica that already holds an older state
+// of the list. ygot may refuse that (it expects ordered lists to be unmarshalled as a
+// whole); what it must not do is accept the document and leave the list in another order
+// than the document's.
+func c15SyncJSON(s *c15State) *Violation {
+	p := s.t.Pkg
+	sch := p.Schema().RootSchema()
+	sig := "C15:" + s.t.Kind2() + ":sync-json"
+	cur := s.root.Interface().(ygot.GoStruct)
+	var js string
+	var err error
+	if pe := callSUT(func() {
+		js, err = ygot.EmitJSON(cur, &ygot.EmitJSONConfig{Format: ygot.RFC7951, SkipValidation: true})
+	}); pe != nil {
+		return violation("C15", "panic", "C15:panic:sync-json", "EmitJSON panicked: %v", pe.v)
+	}
+	if err != nil {
+		return violation("C15", "roundtrip", sig, "EmitJSON failed: %v", err)
+	}
+	if pe := callSUT(func() { err = p.Unmarshal([]byte(js), s.jreplica) }); pe != nil {
+		return violation("C15", "panic", "C15:panic:sync-json", "Unmarshal into a populated tree panicked: %v", pe.v)
+	}
+	if err != nil {
+		// refused: start the replica afresh from the document
+		s.st.Faults["json_merge_into_existing_list_refused"]++
+		nr := p.NewRoot()
+		if e2 := p.Unmarshal([]byte(js), nr); e2 != nil {
+			return violation("C15", "roundtrip", sig, "Unmarshal of emitted JSON into a fresh tree failed: %v", e2)
+		}
+		s.jreplica = nr
+		return nil
+	}
+	want := model.Walk(cur, sch, "")
+	got := model.Walk(s.jreplica, sch, "")
+	lp := s.listPath(want)
+	inDoc := map[string]bool{}
+	for _, k := range want.ListKeys[lp] {
+		inDoc[k] = true
+	}
+	var filtered []string
+	for _, k := range got.ListKeys[lp] {
+		if inDoc[k] {
+			filtered = append(filtered, k)
+		}
+	}
+	if fmt.Sprint(filtered) != fmt.Sprint(want.ListKeys[lp]) {
+		return violation("C15", "order-lost", sig, "Unmarshal accepted a document listing %s as %v but the tree now has them as %v", lp, want.ListKeys[lp], got.ListKeys[lp])
+	}
+	s.st.Probes["json_merged_into_existing"]++
 	return nil
 }
